@@ -416,6 +416,11 @@ func (w *World) GenTx(t *rapid.T, r *Replica, only []types.TxType) (*types.Trans
 		tx.Payload, _ = att.ToBytes()
 	}
 
+	if w.FatTxs && typ == types.SendTx && r.Cfg.Consensus.EnableUpgrade11 && rapid.IntRange(0, 2).Draw(t, "fatPayload") != 2 {
+		// a payload of tens of kilobytes (allowed from upgrade 11 on): a handful of these fill a block to its gas cap
+		tx.Payload = make([]byte, rapid.SampledFrom([]int{30000, 60000, 100000, 150000, 250000}).Draw(t, "fatPayloadSize"))
+		tx.Payload[0], tx.Payload[len(tx.Payload)-1] = byte(len(tx.Payload)), sender.Addr[0]
+	}
 	// fee: normally twice the current fee, so the tx stays valid when the rate moves
 	netSize := s.ValidatorsCache.NetworkSize()
 	curFee := fee.CalculateFee(netSize, st.FeePerGas(), tx)
